@@ -256,3 +256,20 @@ SPECS["C18"] = dict(
              params=dict(quick=dict(remotes=2, tamperpositions=4), thorough=dict(remotes=2, tamperpositions=10)), witnesses=["fetched", "error"]),
     ],
 )
+
+C06_API = "(*git.arvados.org/arvados.git/sdk/go/arvados.Client).RequestAndDecodeContext=gosymAPI"
+SPECS["C06"] = dict(
+    level="model_checking",
+    outside="more than 3 (quick) / 4 (thorough) collections and more than 1 (quick) / 2 (thorough) concurrent changes per scan (the statement speaks of 0-200 collections); real JSON decoding and HTTP; database isolation anomalies; Balancer.Run / GetCurrentState error plumbing (not yet encoded, see DESIGN)",
+    assumptions=["the API server is a model collections table (filters on modified_at/uuid with = >= > <= !=, order (modified_at, uuid), limit, exact count) substituted for (*arvados.Client).RequestAndDecodeContext",
+                 "between two requests a collection may be modified (fresh maximal timestamp), deleted or added", "index bodies are concrete; every truncation point, three read chunkings and a mid-stream read error are enumerated"],
+    runs=[
+        dict(name="paging", pkg="services/keep-balance", harness=["keepbalance/c06_paging.go", "keepbalance/util.go"], entry="GosymH_C06_paging", stubs=[C06_API], replay="engine",
+             params=dict(quick=dict(collections=3, events=1, failures=1), thorough=dict(collections=4, events=2, failures=0)), witnesses=["scan-ok", "scan-ok-with-concurrent-change", "api-failure"]),
+        dict(name="index", pkg="sdk/go/arvados", harness=["arvados/c06_index.go"], entry="GosymH_C06_index", stubs=["(*git.arvados.org/arvados.git/sdk/go/arvados.Client).Do=gosymDo"], replay="engine",
+             witnesses=["accepted", "rejected"]),
+        dict(name="getindex", pkg="sdk/go/keepclient", harness=["keepclient/c06_getindex.go", "keepclient/c03_get.go"], entry="GosymH_C06_getindex", witnesses=["accepted", "rejected"]),
+        dict(name="handleindex", pkg="services/keepstore", harness=["keepstore/c06_handleindex.go", "keepstore/util.go", "keepstore/c01_stub.go"], entry="GosymH_C06_handleindex",
+             params=dict(quick=dict(volumes=2), thorough=dict(volumes=3)), witnesses=["complete", "truncated"]),
+    ],
+)
